@@ -256,15 +256,31 @@ func c02Konv(p *Prog, r *Report) {
 			ok = false
 			det += " in-flux term present in the top-layer leaf"
 		}
-		// drain exactly where z == DRAIDEP and flow at the lower boundary is downward
-		wantDrain := lf.atDrain && lf.sOut > 0
-		if wantDrain != (lf.drain != nil) {
+		// the drain counter books QDRAIN·c[DRAIDEP] whatever the direction of the interface fluxes (capillary rise
+		// can turn the flux below the drain layer upwards while the drain still runs), so the drain water must
+		// leave the drain layer in every leaf the drain layer can reach; the only leaf that cannot see a running
+		// drain is the top layer under a negative surface flux (the water kernel then runs its evaporation arm,
+		// which never sets the drain flux: C01.R4 fresh:QDRAIN)
+		notDrain := guardedBy(lf.e, lf.z.Sub(cellP("GlobalVarsMain.DRAIDEP")), token.NEQ)
+		switch {
+		case lf.atDrain && lf.drain == nil:
 			ok = false
-			det += fmt.Sprintf(" drain term present=%v, expected=%v", lf.drain != nil, wantDrain)
+			det += " the leaf is taken for the drain layer but does not remove the drain water's N"
+		case notDrain && lf.drain != nil:
+			ok = false
+			det += " drain term in a leaf that excludes the drain layer"
+		case !lf.atDrain && !notDrain && lf.drain != nil:
+			ok = false
+			det += " drain term in a leaf that is not restricted to the drain layer"
+		case !lf.atDrain && !notDrain && !(lf.top && lf.sIn < 0):
+			ok = false
+			det += " the drain layer can reach this leaf (no test of z against the drain depth) but the drain water's N is not removed here, while the drain counter books it: with capillary rise below a running drain the N is reported as lost and stays in the soil"
+		case !lf.atDrain && !notDrain:
+			det += " (top layer under a negative surface flux: the drain cannot run)"
 		}
-		if lf.drain != nil && lf.aOut != nil && *lf.drain != *lf.aOut {
+		if lf.drain != nil && *lf.drain != 0 {
 			ok = false
-			det += " drain takes a different concentration than the downward out-flux"
+			det += " drain water leaves with a concentration other than the drain layer's own"
 		}
 		if len(lf.problems) > 0 {
 			det += " " + strings.Join(lf.problems, "; ")
